@@ -175,6 +175,12 @@ def decode(E, alignment):
                 continue
             k = common.unit_index(unit_lists[a], u)
             if k is None:
+                # not the same object (the fast alignment works on a deep copy): the same unit by value?
+                for idx_, v in enumerate(unit_lists[a]):
+                    if u.annotation == v.annotation and bool(u.segment.start == v.segment.start) and bool(u.segment.end == v.segment.end):
+                        k = idx_
+                        break
+            if k is None:
                 # not the continuum's own object: is it equal by value to one of that annotator's units?
                 eqs = [z3.And(lift(u.segment.start) == lift(v.segment.start), lift(u.segment.end) == lift(v.segment.end),
                               z3.BoolVal(u.annotation == v.annotation)) for v in unit_lists[a]]
@@ -221,6 +227,8 @@ def run_alignment(ns, E, mode):
     c, D = E["c"], E["D"]
     if mode == "soft":
         return c.get_best_soft_alignment(D)
+    if isinstance(mode, str) and mode.startswith("fast"):
+        return c.get_fast_alignment(D, int(mode[4:] or 1))
     return c.get_best_alignment(D)
 
 
@@ -380,8 +388,12 @@ def _replay_pipeline(case):
                 c.remove(ANN[0], extra_u)
         except Exception as ex:     # noqa: BLE001
             return dict(reproduced=True, detail="the preceding computation / edit raised " + repr(ex)[:300])
+    fast = str(case.get("mode", "")).startswith("fast")
     try:
-        A = c.get_best_soft_alignment(D) if soft else c.get_best_alignment(D)
+        if fast:
+            A = c.get_fast_alignment(D, int(str(case["mode"])[4:] or 1))
+        else:
+            A = c.get_best_soft_alignment(D) if soft else c.get_best_alignment(D)
     except BaseException as ex:    # noqa: BLE001
         if type(ex).__name__ == "_Alarm":
             raise
@@ -391,7 +403,12 @@ def _replay_pipeline(case):
         return dict(reproduced=True, detail="; ".join(bad[:4]))
     want, _ = real_oracle(case, per, pair, de, soft)
     got = float(A.disorder)
-    if abs(got - want) > 2e-5 * max(1.0, abs(want)):
+    if fast:
+        # a fast alignment is a partition that is never better than the optimum (equal when the window covers everything)
+        w_, n_units, n_ann = int(str(case["mode"])[4:] or 1), len(case["units"]), len(case["annotators"])
+        if got < want - 2e-5 * max(1.0, abs(want)) or (w_ * n_ann >= n_units and abs(got - want) > 2e-5 * max(1.0, abs(want))):
+            bad.append(f"fast disorder {got} vs optimum {want}")
+    elif abs(got - want) > 2e-5 * max(1.0, abs(want)):
         bad.append(f"disorder {got} != optimum {want}")
     try:
         rec = float(A.compute_disorder(D))
